@@ -483,10 +483,17 @@ class JaqalParser(Parser):
         if token is not None:
             line = token.lineno
             col = self.compute_col(token.index)
+            message = f"At token `{token.value}`"
         else:
-            line = "EOF"
-            col = 0
-        raise JaqalParseError(self._source, line, col, f"At token `{token.value}`")
+            # The input ended too early: report the position just past the end.
+            if self._source_text is None:
+                line = "EOF"
+                col = 0
+            else:
+                line = self._source_text.count("\n") + 1
+                col = len(self._source_text) - self._source_text.rfind("\n")
+            message = "Unexpected end of input"
+        raise JaqalParseError(self._source, line, col, message)
 
     def raise_error(self, message):
         """Common method for when errors come up not in the grammar but in the
